@@ -13,6 +13,7 @@ refusal, datatype of the created child); MessageProfileNotFound / LegacyMessageP
 from __future__ import annotations
 
 import os
+import re
 
 from .. import common, tables, structures as st, conform, refmodel
 from ..common import Result, VERSIONS, STRICT, TOLERANT, exc_class, libs
@@ -221,6 +222,49 @@ def message_unit(v, name, res, tier):
                                       % (ename, '/'.join(path), name, v, marker, e_val[:3]), pt, 2)
                     else:
                         res.classes['profile-kept-after-value-assignment'] += 1
+            if ename == 'min1' and len(path) >= 2:
+                # the same edit seen through the parser when the groups around the site occur more than once: every instance of
+                # the parent group that lacks the child is reported, the later instances too
+                res.evaluations += 1
+                res.transitions += 2
+                try:
+                    t3 = prune_all(tree_along(ref, path[:-1]), path)
+                    text3 = conform.build_message(v, name, t3).to_er7()
+                    q_std = parse_message(text3, validation_level=TOLERANT)
+                    q_prof = parse_message(text3, validation_level=TOLERANT, message_profile=eprof)
+                    e3 = errs(q_prof)
+                except Exception as e:
+                    res.violation('edit-raises|parse-rep2|%s|%s' % (ename, exc_class(e)), '%s edit at %s of %s (v%s), every repeatable group twice, parsed with the '
+                                  'profile: %s: %s' % (ename, '/'.join(path), name, v, exc_class(e), e), pt, 3)
+                    continue
+                if st.parsed_shape(q_std) != st.parsed_shape(q_prof):
+                    res.violation('profile-changes-grouping|%s|%s' % (v, name), '%s edit at %s of %s (v%s): the parser groups the segments differently with the '
+                                  'profile' % (ename, '/'.join(path), name, v), pt, 3)
+                    continue
+                lacking = count_lacking(q_prof, parent, cname)
+                exact = re.compile(re.escape(marker) + r'(?![A-Za-z0-9_])')
+                got3 = sum(1 for t in e3 if exact.search(t))
+                # each instance judged on its own (group.validate() goes by the reference the instance carries)
+                for g in groups_named(q_prof, parent):
+                    if any(k.name == cname for k in g.children):
+                        continue
+                    try:
+                        own = [str(x) for x in g.validate(return_errors=True).errors]
+                    except Exception as e:
+                        own = ['validate raises %s' % exc_class(e)]
+                    if not any(exact.search(t) for t in own):
+                        res.violation('profile-ignored|group-instance|%s|%s|%s|%s' % (ename, v, name, '/'.join(path)),
+                                      '%s edit at %s of %s (v%s): an instance of %s parsed with the profile and validated on its own does not '
+                                      'report %r (errors %r)' % (ename, '/'.join(path), name, v, parent, marker, own[:3]), pt, 3)
+                        break
+                if lacking >= 2:
+                    res.nontrivial += 1
+                if got3 != lacking:
+                    res.violation('profile-ignored|parse-rep2|%s|%s|%s|%s' % (ename, v, name, '/'.join(path)),
+                                  '%s edit at %s of %s (v%s): %d instances of %s lack %s, validation against the profile reports %d of them'
+                                  % (ename, '/'.join(path), name, v, lacking, parent, cname, got3), pt, 3)
+                else:
+                    res.classes['edit-observed-in-every-instance'] += 1
             # STRICT construction follows the profile too
             if ename in ('max1', 'remove'):
                 res.evaluations += 1
@@ -249,6 +293,63 @@ def message_unit(v, name, res, tier):
                     res.classes['strict-follows-profile'] += 1
     res.dims['structures'] += 1
     res.sample({'v': v, 'structure': name, 'sites': len(child_sites(ref, tree))}, cap=3)
+
+
+def tree_along(ref, gpath):
+    """required children only, except that the groups named by gpath are present, twice each when they may repeat"""
+    out = []
+    for c in st.children_of(ref):
+        try:
+            cname, cref, (mn, mx), cls = c
+        except Exception:
+            continue
+        if cref is None or cname == 'ANYHL7SEGMENT':
+            continue
+        if cls == 'SEG':
+            if mn >= 1:
+                out.append(('S', cname))
+        elif gpath and cname == gpath[0]:
+            for _ in range(2 if (mx == -1 or mx > 1) else 1):
+                kids = tree_along(cref, gpath[1:]) or st.first_segment(cref)
+                out.append(('G', cname, kids))
+        elif mn >= 1:
+            kids = st.gen(cref, 'required')
+            if kids:
+                out.append(('G', cname, kids))
+    return out
+
+
+def prune_all(tree, path):
+    """the tree without the child at `path`, in every instance of the groups along the path"""
+    out = []
+    for n in tree:
+        if n[1] == path[0]:
+            if len(path) == 1:
+                continue
+            if n[0] == 'G':
+                out.append(('G', n[1], prune_all(n[2], path[1:])))
+                continue
+        out.append(n)
+    return out
+
+
+def groups_named(e, name):
+    for c in e.children:
+        if c.classname == 'Group':
+            if c.name == name:
+                yield c
+            for g in groups_named(c, name):
+                yield g
+
+
+def count_lacking(e, parent, cname):
+    n = 0
+    for c in e.children:
+        if c.classname == 'Group':
+            if c.name == parent and not any(k.name == cname for k in c.children):
+                n += 1
+            n += count_lacking(c, parent, cname)
+    return n
 
 
 def build_with_foreign(v, name, tree, prof, path, row):
@@ -380,9 +481,9 @@ def component_level(v, seg, name, ref, spath, res, point):
         except Exception as e:
             res.violation('component-edit-raises|%s|%s|%s' % (v, seg, exc_class(e)), 'component-level edit of %s.%s in %s (v%s): %s: %s' % (fr.name, cr.name, name, v, exc_class(e), e), pt, 3)
             continue
-        res.evaluations += 6
-        res.transitions += 12
-        res.validated += 5
+        res.evaluations += 8
+        res.transitions += 16
+        res.validated += 7
         for how in ('traversal-read', 'traversal-write', 'add-helpers', 'parse'):
             if obs[how] != new_dt:
                 res.violation('profile-ignored|component-datatype|%s|v%s' % (how, v), '%s.%s of %s (v%s, host %s): created through %s has datatype %s, the profile says %s'
@@ -471,15 +572,25 @@ def field_unit(v, seg, res):
             m = Message(name, version=v, reference=eprof)
             m.value = text
             observed['message-value'] = getattr(nav(m), fr.name.lower())[0].datatype
+            # (f) assignment of an element that belongs to a message built without the profile (it is copied)
+            m = Message(name, version=v, reference=eprof)
+            par = m
+            for g in spath[:-1]:
+                par = par.add_group(g)
+            setattr(par, seg.lower(), nav(std))
+            observed['element-copy-segment'] = getattr(getattr(par, seg.lower()), fr.name.lower())[0].datatype
+            m = Message(name, version=v, reference=eprof)
+            setattr(nav(m), fr.name.lower(), getattr(nav(std), fr.name.lower())[0])
+            observed['element-copy-field'] = getattr(nav(m), fr.name.lower())[0].datatype
             # standard run keeps the standard datatype
             observed['standard'] = getattr(nav(std), fr.name.lower())[0].datatype
         except Exception as e:
             res.violation('field-edit-raises|%s|%s|%s' % (v, seg, exc_class(e)), 'datatype swap of %s in %s (v%s): %s: %s (observed so far %r)' % (fr.name, name, v, exc_class(e), e, observed), pt, 3)
             continue
-        res.evaluations += 6
-        res.transitions += 12
-        res.validated += 5
-        for how in ('traversal-read', 'traversal-write', 'add-helpers', 'parse', 'text-assignment', 'message-value'):
+        res.evaluations += 8
+        res.transitions += 16
+        res.validated += 7
+        for how in ('traversal-read', 'traversal-write', 'add-helpers', 'parse', 'text-assignment', 'message-value', 'element-copy-segment', 'element-copy-field'):
             if observed[how] != new_dt:
                 res.violation('profile-ignored|datatype|%s|%s' % (how, 'v' + v), '%s of %s (v%s, host %s): created through %s has datatype %s, the profile says %s'
                               % (fr.name, seg, v, name, how, observed[how], new_dt), pt, 3)
